@@ -27,7 +27,7 @@ namespace ratio
 
     inline type &get_type() const noexcept { return tp; }
 
-    virtual smt::lit new_eq(item &i) noexcept;
+    virtual smt::lit new_eq(item &i);
     virtual bool equates(item &i) noexcept;
 
     virtual smt::json to_json() const noexcept;
@@ -63,7 +63,7 @@ namespace ratio
     arith_item(const arith_item &that) = delete;
     CORE_EXPORT virtual ~arith_item() = default;
 
-    smt::lit new_eq(item &i) noexcept override;
+    smt::lit new_eq(item &i) override;
     bool equates(item &i) noexcept override;
 
   private:
